@@ -985,14 +985,15 @@ async fn step(w: &mut World, op: &Op, check: bool) -> Fails {
     check_backend("sqlite", &w.db, &fdb, &w.model, op, &mut sub).await;
     for (prop, sig, what, detail) in sub.0 {
         // a mismatch after an operation the model refuses is a C07
-        // failure ("a refused request changes nothing")
-        let prop = if refused_model { "C07".to_string() } else { prop };
-        let sig = if refused_model {
-            format!("refused_but_changed:{}", sig)
+        // failure ("a refused request changes nothing"); when the live
+        // tree, the reloaded tree and the stored records no longer agree
+        // it is a C06 failure as well (C08 oracles keep their property)
+        if refused_model && prop == "C06" {
+            fails.0.push(("C07".to_string(), format!("refused_but_changed:{}", sig), what.clone(), detail.clone()));
+            fails.0.push((prop, format!("after_refused_operation:{}", sig), what, detail));
         } else {
-            sig
-        };
-        fails.0.push((prop, sig, what, detail));
+            fails.0.push((prop, sig, what, detail));
+        }
     }
     // for fs: no snapshot file left behind after a refused replace-all
     if let Op::ReplaceAll { good: false, .. } = op {
